@@ -178,7 +178,7 @@ func genHostileFile(r *Rng) []Op {
 		file = randBytes(r, r.Intn(40))
 	default: // intact header, arbitrary slots (a handle that opens on damaged data)
 	}
-	ops := []Op{{"reset", false}, {"setdisk " + hx(file), false}, {"open", true}}
+	ops := []Op{{"reset", false}, {"taintmode", false}, {"setdisk " + hx(file), false}, {"open", true}}
 	now := 1600000000 + r.Intn(3000)
 	for i := 0; i < 6; i++ {
 		k := r.Intn(lay.K()+2) - 1
